@@ -22,7 +22,7 @@ RULE = (
 )
 REQUIRED = ["automorphism_count_checked", "orbits_checked", "nontrivial_groups", "disconnected_graphs",
             "autoest_coarsening_checked", "autoest_strictly_coarser", "dedup_contract_evals", "dedup_dropped_something",
-            "pruning_differential_runs", "pruning_removed_matches"]
+            "pruning_differential_runs", "pruning_removed_matches", "pruning_symmetry_reference_checked"]
 ASSUMPTIONS = [
     "Automorphism defaults: missing element '*', charge 0, order 1.0 (the class's documented defaults)",
     "AutoEst compared against the automorphism group of the whole graph (component swaps included: WL colours are invariant under them)",
